@@ -85,3 +85,12 @@ Print Assumptions C18_widest_contains_narrowest.
 Print Assumptions C18_widest_monotone.
 Print Assumptions C18_narrowest_monotone_partial.
 Print Assumptions C18_condensation_contains.
+
+(* quantile bounds ARE cdf bounds (Proofs/ComposeCdf.v, on the notion of Proofs/Compose.v): whatever sample the p-box bounds, at every abscissa x
+   the number of sample values <= x lies between the number of right-bound values <= x and the number of left-bound values <= x - the
+   cumulative-probability bounds at x bound the empirical distribution function of every bounded sample *)
+From PUN Require Import Base.Sort Proofs.Compose Proofs.ComposeCdf.
+Theorem C18_cdf_bounds_every_sample (L Rr u : list R) (x : R) : bounds L Rr u ->
+  (cnt (fun a => Rleb a x) Rr <= cnt (fun a => Rleb a x) u <= cnt (fun a => Rleb a x) L)%nat.
+Proof. exact (counts_bound_sample L Rr u x). Qed.
+Print Assumptions C18_cdf_bounds_every_sample.
